@@ -86,3 +86,17 @@ func ID(b []byte, useSHA256 bool) [32]byte {
 	}
 	return sha512.Sum512_256(b)
 }
+
+// SensitiveAvgs lists the average chunk sizes in [lo, hi] for which evaluating casync's
+// discriminator formula in single precision gives another integer than in double precision:
+// the values a precision or rounding change in that formula shows up at.
+func SensitiveAvgs(lo, hi uint64) []uint64 {
+	var out []uint64
+	for a := lo; a <= hi; a++ {
+		f32 := uint32(float32(a) / (float32(-1.42888852e-7)*float32(a) + float32(1.33237515)))
+		if f32 != Discriminator(a) {
+			out = append(out, a)
+		}
+	}
+	return out
+}
